@@ -96,6 +96,55 @@ def _shard_body(ctx, mod, prop, tier, shard):
     return ctx.export()
 
 
+def _atheris_addon(prop, seed, total, core):
+    import subprocess
+    import tempfile
+    try:
+        sys.path.insert(0, DEPS)
+        import atheris  # noqa: F401
+    except ImportError:
+        try:
+            subprocess.check_call([sys.executable, "-m", "pip", "install", "-q", "--no-index", "--find-links", WHEELS, "--target", DEPS, "atheris"])
+        except Exception as e:
+            return {"available": False, "reason": "atheris not installable offline: %s" % e}
+    finally:
+        if DEPS in sys.path:
+            sys.path.remove(DEPS)
+    nproc, runs = 8, int(os.environ.get("VERIF_ATHERIS_RUNS", "20000"))
+    info = {"available": True, "processes": nproc, "libfuzzer_runs_each": runs, "structured_cases_executed": 0, "nontrivial": 0, "violation_buckets": []}
+    with tempfile.TemporaryDirectory() as d:
+        procs = []
+        for i in range(nproc):
+            out = os.path.join(d, "p%d" % i)
+            procs.append((out, subprocess.Popen([sys.executable, os.path.join(HERE, "fuzz_atheris.py"), prop, "--runs", str(runs),
+                                                 "--seed", str(seed * 100 + i + 1), "--out", out],
+                                                stdout=subprocess.DEVNULL, stderr=subprocess.DEVNULL)))
+        for out, p in procs:
+            try:
+                p.wait(timeout=3600)
+            except subprocess.TimeoutExpired:
+                p.kill()
+                info["note"] = "a fuzz process hit the 1h budget (inconclusive for the remainder)"
+            rp = os.path.join(out, "result.json")
+            if not os.path.exists(rp):
+                info.setdefault("failed_processes", 0)
+                info["failed_processes"] += 1
+                continue
+            r = json.load(open(rp))
+            info["structured_cases_executed"] += r["runs"]
+            info["nontrivial"] += r["nontrivial"]
+            total.evaluations += r["runs"]
+            for b, v in r["violations"].items():
+                w = total.violations.get(b)
+                size = len(core.canon(v["case"]))
+                if w is None:
+                    total.violations[b] = {"count": v["count"], "case": v["case"], "detail": v["detail"], "size": size}
+                else:
+                    w["count"] += v["count"]
+                info["violation_buckets"].append(b)
+    return info
+
+
 def main():
     repo = _bootstrap()
     from pbt import core
@@ -174,6 +223,12 @@ def main():
         else:
             total.absorb(r)
 
+    # 2b. coverage-guided add-on (thorough tier, modules that expose fuzz_strategy): atheris drives the same
+    #     structured generator and oracle through hypothesis.fuzz_one_input; fresh corpus, -seed from VERIF_SEED
+    fuzz_info = None
+    if a.tier == "thorough" and hasattr(mod, "fuzz_strategy") and not os.environ.get("VERIF_NO_ATHERIS"):
+        fuzz_info = _atheris_addon(prop, seed, total, core)
+
     if harness:
         for h in harness[:3]:
             print("HARNESS-ERROR property=%s\n%s" % (prop, h))
@@ -217,6 +272,8 @@ def main():
         "fixed_defects_replayed": fixed,
         "technique": getattr(mod, "TECHNIQUE", ""),
     }
+    if fuzz_info is not None:
+        cov["atheris_addon"] = fuzz_info
     ev = {"property_id": prop, "tier": a.tier, "seed": seed, "level": "exploration", "coverage": cov,
           "assumptions": list(getattr(mod, "ASSUMPTIONS", [])), "wall_s": round(wall, 2),
           "violations": len(unlisted)}
